@@ -17,7 +17,10 @@ for d in sorted(glob.glob(os.path.join(HERE, "seeded", "*", "meta.json"))):
     n += 1
     miss += bool(m.get("history"))
     unrep += not caught
-    lines.append(f"| {name} | {title[:110].replace('|', '/')} | {', '.join(caught) or '(none, see text)'} | {'yes' if m.get('history') else ''} |")
+    rep = ", ".join(caught) or "(none, see text)"
+    if m.get("superseded_by_fix"):
+        rep += f" (before fix {m['superseded_by_fix']}, which makes the change harmless)"
+    lines.append(f"| {name} | {title[:110].replace('|', '/')} | {rep} | {'yes' if m.get('history') else ''} |")
 p = os.path.join(HERE, "DESIGN.md")
 s = open(p).read()
 a, b = "<!-- seeded-table-begin -->", "<!-- seeded-table-end -->"
